@@ -254,6 +254,22 @@ def sender(prog, rep):
           and dt[2][0][0] == "arg" and dt[2][0][2] == "tick" and dt[2][1][0] == "arg" and dt[2][1][2] == "delta_tick")
     rep.ob(rule, "delta_chunks | wire delta_tick", ok,
            "the sender transmits tick.wrapping_sub(base), the inverse of the receiver's reconstruction: %s" % show(dt), body.loc())
+    # ... and each of the three message forms carries the stored tick and the stored (already relative) base tick verbatim
+    nb0 = prog.one("<libtw2_snapshot::snap::DeltaChunks as std::iter::Iterator>::next")
+    nir0 = IR(nb0)
+    forms = 0
+    for bi in sorted(nb0.live):
+        for si, st in enumerate(nb0.blocks[bi]["st"]):
+            if st["k"] == "assign" and st["r"]["k"] == "agg" and (st["r"].get("adt") or "").rsplit("::", 1)[-1] in ("SnapEmpty", "SnapSingle", "Snap") \
+                    and "gamenet" in (st["r"].get("adt") or ""):
+                fl = dict(nir0.rvalue(st["r"], (bi, si))[4])
+                forms += 1
+                t_ = show(strip_sites(fl.get("tick"))) if fl.get("tick") is not None else ""
+                d_ = show(strip_sites(fl.get("delta_tick"))) if fl.get("delta_tick") is not None else ""
+                okf = t_.endswith("self.tick") and d_.endswith("self.delta_tick")
+                rep.ob(rule, "DeltaChunks::next | %s carries the stored tick and base" % st["r"]["adt"].rsplit("::", 1)[-1], okf,
+                       "tick: %s, delta_tick: %s" % (t_[:60], d_[:60]), nb0.loc(st.get("ln")))
+    rep.floor(rule, forms, 3, "message forms built by DeltaChunks::next")
     np_ = agg["num_parts"]
     txt = show(np_)
     psz = prog.constv("libtw2_gamenet_snap::MAX_SNAPSHOT_PACKSIZE")
